@@ -25,7 +25,7 @@ def _scope(I, st):
     return getattr(c, 'scope', None) if c else None
 
 
-def _bindings(st, extra=None):
+def _bindings0(st, extra=None):
     b = {k: v for k, v in st.env.items() if not k.startswith('__') and v is not UNBOUND}
     if extra:
         b.update(extra)
@@ -69,7 +69,7 @@ def havoc(I, st, spec, node):
             t = types.get(nm) or shape_type(I, st, cur)
             if t is None:
                 raise EngineLimit('cannot havoc %s: give its type' % nm)
-            outs = list(C.fresh_value(I, st, t, 'lp_' + fld))
+            outs = list(C.fresh_value(I, st, t, 'lp_' + fld, lazy=True))
             if len(outs) != 1:
                 raise EngineLimit('havoc of optional %s' % nm)
             o2 = st.mut(sref.addr)
@@ -81,7 +81,7 @@ def havoc(I, st, spec, node):
             t = types.get(nm) or shape_type(I, st, cur)
             if t is None:
                 raise EngineLimit('cannot havoc %s: give its type' % nm)
-            outs = list(C.fresh_value(I, st, t, 'lp_' + nm))
+            outs = list(C.fresh_value(I, st, t, 'lp_' + nm, lazy=True))
             if len(outs) != 1:
                 raise EngineLimit('havoc of optional %s' % nm)
             st.env[nm] = outs[0][1]
@@ -162,15 +162,57 @@ def _check_frame(I, before, st, names, node, extra_ok=()):
             pass
 
 
+def eval_ghosts(I, spec, st, scope):
+    g = {}
+    for name, expr in (spec.get('ghost') or {}).items():
+        outs = list(C.eval_forks(I, expr, _bindings0(st), st, scope))
+        if len(outs) != 1 or isinstance(outs[0][1], Raise):
+            raise EngineLimit('loop ghost %s must be a simple total expression' % name)
+        st1, v = outs[0]
+        g[name] = C.snapshot_value(I, st1, st, v)
+    return g
+
+
+def havoc_ghosts(I, spec, st, ghosts):
+    """ghost variables that are updated per iteration are arbitrary at the loop head"""
+    out = dict(ghosts)
+    for name in (spec.get('ghost_update') or {}):
+        t = (spec.get('types') or {}).get(name) or shape_type(I, st, ghosts[name])
+        if t is None:
+            raise EngineLimit('cannot havoc ghost %s: give its type' % name)
+        outs = list(C.fresh_value(I, st, t, 'gh_' + name))
+        out[name] = outs[0][1]
+    return out
+
+
+def update_ghosts(I, spec, st, ghosts, scope, extra=None):
+    out = dict(ghosts)
+    for name, expr in (spec.get('ghost_update') or {}).items():
+        b = _bindings0(st, extra)
+        b.update(ghosts)
+        outs = list(C.eval_forks(I, expr, b, st, scope))
+        if len(outs) != 1 or isinstance(outs[0][1], Raise):
+            raise EngineLimit('ghost update %s must be a simple total expression' % name)
+        out[name] = C.snapshot_value(I, outs[0][0], st, outs[0][1])
+    return out
+
+
 def while_with_invariant(I, node, spec, st):
     scope = _scope(I, st)
     invs = spec.get('invariant', [])
+    g0 = eval_ghosts(I, spec, st, scope)
+
+    def B(st, g, extra=None):
+        b = _bindings0(st, extra)
+        b.update(g)
+        return b
     for k, inv in enumerate(invs):
-        C.prove_expr(I, inv, _bindings(st), st, scope, 'inv-entry', node=node,
+        C.prove_expr(I, inv, B(st, g0), st, scope, 'inv-entry', node=node,
                      name='%s#inv-entry[%d]@%s' % (I.cur_func, k, stmt_text(node)), note=inv)
     names = havoc(I, st, spec, node)
+    gh = havoc_ghosts(I, spec, st, g0)
     for inv in invs:
-        C.assume_expr(I, inv, _bindings(st), st, scope)
+        C.assume_expr(I, inv, B(st, gh), st, scope)
     if not I.feasible(st.pc):
         return
     dec = spec.get('decreases')
@@ -185,10 +227,11 @@ def while_with_invariant(I, node, spec, st):
                 else:
                     yield st2, NORMAL
                 continue
+            gn = update_ghosts(I, spec, st2, gh, scope)
             before = _snapshot_frame(st2)
             d0 = None
             if dec:
-                outs = list(C.eval_forks(I, dec, _bindings(st2), st2, scope))
+                outs = list(C.eval_forks(I, dec, B(st2, gh), st2, scope))
                 if len(outs) != 1:
                     raise EngineLimit('decreases must be single-path')
                 d0 = I.as_int(outs[0][1])
@@ -196,10 +239,10 @@ def while_with_invariant(I, node, spec, st):
                 if sig is NORMAL or sig[0] == 'continue':
                     _check_frame(I, before, st3, names, node)
                     for k, inv in enumerate(invs):
-                        C.prove_expr(I, inv, _bindings(st3), st3, scope, 'inv-preserve', node=node,
+                        C.prove_expr(I, inv, B(st3, gn), st3, scope, 'inv-preserve', node=node,
                                      name='%s#inv-preserve[%d]@%s' % (I.cur_func, k, stmt_text(node)), note=inv)
                     if dec:
-                        outs = list(C.eval_forks(I, dec, _bindings(st3), st3, scope))
+                        outs = list(C.eval_forks(I, dec, B(st3, gn), st3, scope))
                         d1 = I.as_int(outs[0][1])
                         I.oblige(st3, 'decreases', z3.And(d0 >= 0, d1 < d0), node=node,
                                  name='%s#decreases@%s' % (I.cur_func, stmt_text(node)))
@@ -247,6 +290,11 @@ def for_with_invariant(I, node, spec, it, st):
     n, elem = iter_model(I, st, it)
     tnames = [x.id for x in ast.walk(node.target) if isinstance(x, ast.Name)]
     pre_target = {t: st.env.get(t, UNBOUND) for t in tnames}
+    ghosts = eval_ghosts(I, spec, st, scope)
+    def _bindings(st, extra=None, _g=ghosts):
+        b = _bindings0(st, extra)
+        b.update(_g)
+        return b
     for k, inv in enumerate(invs):
         C.prove_expr(I, inv, _bindings(st, {idx: SInt(0)}), st, scope, 'inv-entry', node=node,
                      name='%s#inv-entry[%d]@%s' % (I.cur_func, k, stmt_text(node)), note=inv)
@@ -259,6 +307,11 @@ def for_with_invariant(I, node, spec, it, st):
         C.assume_expr(I, inv, _bindings(st, {idx: SInt(kv)}), st, scope)
     if not I.feasible(st.pc):
         return
+    if isinstance(it, Ref) and isinstance(st.heap[it.addr], HSeq):
+        # prefix-snoc fact of sequences (valid; self-checked): l[:k+1] == l[:k] ++ [l[k]] for k < len(l)
+        e = st.heap[it.addr].e
+        st.pc.append(z3.Implies(kv < n, z3.Extract(e, 0, kv + 1) == z3.Concat(z3.Extract(e, 0, kv), z3.Unit(e[kv]))))
+        I.trusted.add('lemma instance: l[:k+1] == l[:k] ++ [l[k]] for k < len(l) (valid in the sequence theory; self-checked)')
     for st1, more in I.split(st, kv < n):
         if not more:
             # normal exit after n iterations: the target keeps its last value
